@@ -324,12 +324,15 @@ func (c *CheckCommand) validateSelectedAnalyses() error {
 
 // checkComplexity runs complexity analysis and returns issue count
 func (c *CheckCommand) checkComplexity(cmd *cobra.Command, args []string) (int, error) {
-	// Create request with check-specific settings
+	// Create request with check-specific settings.
+	// MinComplexity is 0, not the default 1: the merge with the configuration file keeps a
+	// request value only when it differs from the default, and a display filter from the
+	// file ([output] min_complexity) must not hide functions from the gate
 	request := &domain.ComplexityRequest{
 		Paths:           args,
 		OutputFormat:    domain.OutputFormatText,
 		OutputWriter:    io.Discard,
-		MinComplexity:   1,
+		MinComplexity:   0,
 		MaxComplexity:   0, // No filter
 		LowThreshold:    5,
 		MediumThreshold: 9,
